@@ -16,6 +16,7 @@ inductive Case where
   | bfd (b : Bytes)
   | xattr (kind : String) (b : Bytes)
   | sess (c : Codec) (est : Bool) (chunks : List Bytes) (eof : Bool)
+  | rtrs (chunks : List Bytes) (eof : Bool)
   deriving Repr
 
 def profileOf? : String → Option Profile
@@ -110,6 +111,10 @@ def caseOf? : Term → Option Case
   | .list [.atom "rtr", ch] => (chunksOf? ch).map .rtr
   | .list [.atom "bfd", b] => (bytesOf? b).map .bfd
   | .list [.atom "sess", c, ph, ch, e] => sessCaseOf? c ph ch e
+  | .list [.atom "rtrs", ch, e] => do
+      let chunks ← chunksOf? ch
+      let eof ← asBool? e
+      if chunks.length ≤ 64 then some (.rtrs chunks eof) else none
   | .list [.atom "xattr", .atom k, b] =>
       if k == "tunnel" || k == "psid" || k == "ls" then (bytesOf? b).map (.xattr k) else none
   | _ => none
@@ -209,6 +214,19 @@ def sobsT (o : Sess.SObs) : Term :=
   tag "sess-obs" ([st, tag "notifs" (o.notifs.map fun (a, b) => list [nat a, nat b])] ++
     (if o.capExceeded then [sym "cap-exceeded"] else []))
 
+def robsT (o : Sess.RObs) : Term :=
+  let st := match o.status with
+    | .done => "done" | .waiting => "waiting" | .panic => "panic" | .wedge => "wedge" | .storm => "storm"
+  tag "rtrs-obs" [list [sym st], nat o.rx]
+
+def robsOf? : Term → Option Sess.RObs
+  | .list [.atom "rtrs-obs", .list [.atom st], n] => do
+      let status ← match st with
+        | "done" => some Sess.RStatus.done | "waiting" => some .waiting | "panic" => some .panic
+        | "wedge" => some .wedge | "storm" => some .storm | _ => none
+      pure ⟨status, ← asNat? n⟩
+  | _ => none
+
 def sobsOf? : Term → Option Sess.SObs
   | .list (.atom "sess-obs" :: st :: .list (.atom "notifs" :: ns) :: rest) => do
       let status ← match st with
@@ -232,6 +250,7 @@ def runCase (p : Profile) : Case → Term
   | .xbgp _ _ => list [sym "hyp"]
   | .xattr _ _ => list [sym "hyp"]
   | .sess c est chunks eof => sobsT (Sess.runSess (decP3 p noHypDec) p c est chunks eof)
+  | .rtrs chunks eof => robsT (Sess.runRtrSess chunks eof)
   | .rtr chunks => tag "obs" ((rtrStream [] chunks).map rrecT)
   | .bfd b => tag "obs" [bfdT (bfdDecode b)]
 
@@ -271,6 +290,10 @@ def oracle (c : Case) (obs : Term) : String :=
       match rs.mapM srecOf? with
       | some recs => verdictStr (Spec.checkBgpCase codec.maxLen chunks recs)
       | none => "fail idx=0 clause=unparsable-observation"
+  | .rtrs _ eof, o =>
+      match robsOf? o with
+      | some ro => verdictStr (Sess.checkRtrSess eof ro)
+      | none => "fail idx=0 clause=unparsable-observation"
   | .sess _ _ _ eof, o =>
       match sobsOf? o with
       | some so => verdictStr (Sess.checkSess eof so)
@@ -285,6 +308,7 @@ def stats (c : Case) (obs : Term) : String :=
   let kind := match c with
     | .bgp _ _ => "bgp" | .xbgp _ _ => "xbgp" | .rtr _ => "rtr" | .bfd _ => "bfd" | .xattr k _ => s!"xattr-{k}"
     | .sess _ est _ eof => s!"sess-{if est then "est" else "pre"}{if eof then "-eof" else ""}"
+    | .rtrs _ eof => s!"rtrs{if eof then "-eof" else ""}"
   let errs := match obs with
     | .list (.atom "obs" :: rs) =>
         rs.filterMap fun (r : Term) => match r with
@@ -300,6 +324,10 @@ def stats (c : Case) (obs : Term) : String :=
           | .up st => s!"sess-outcome:up-{match st with | .opensent => "opensent" | .openconfirm => "openconfirm" | .established => "established"}=1"
           | .closed => if so.notifs.isEmpty then "sess-outcome:closed-silently=1" else s!"sess-outcome:closed-notif-{(so.notifs.headD (0,0)).1}=1"
           | _ => "sess-outcome:bad=1"]
+    | .rtrs _ _, _ =>
+        (match robsOf? obs with
+         | some ro => [s!"rtrs-outcome:{match ro.status with | .done => "done" | .waiting => "waiting" | _ => "bad"}=1"]
+         | none => [])
     | _, _ => []
   " ".intercalate (s!"judged:{kind}=1" :: errs.eraseDups ++ sess)
 
